@@ -9,20 +9,23 @@ from props import C11 as R
 
 NEED_RG = True
 MANIFEST = dict(
-    text="Coq (over Spec/RegexSem.v, unbounded): line_locality_partial (a match inside a line's content is the same in "
-         "the whole buffer and in the stripped line, for LF-terminated lines and HIRs whose look-around is line anchors "
-         "or ASCII word boundaries), strip_invisible_on_content, content_fixed_spec (lines::without_terminator after "
-         "the D9 repair), path_selection_safe (whenever is_line_by_line_fast holds for the regex matcher model, no match "
-         "in the buffer contains the line terminator byte), candidate soundness from C11; `_refuted` witnesses for D9 "
-         "(old without_terminator), D1 (empty match between \\r and \\n) and the new finding D17 (Unicode \\B look-behind "
-         "across a line start). fast_eq_slow over the Core model is NOT proved here (tested only). Tie to the code: "
-         "end-to-end oracle — (patterns, flags from -i -S -s -w -x -F --crlf --null-data -v, several -e, input bytes) "
-         "through real `rg -n --no-heading`, the library searcher (slice, fragmented reader, passthru = slow path) and "
-         "a reference: flags applied through regex-syntax directly, evaluated per stripped line by the extracted "
-         "Coq semantics.",
-    note="partial: fast_eq_slow/slow_reports_iff over the full Core model are the coordinator's SearcherCore theorems "
-         "(matcher abstract); here the regex-side hypotheses are proved except look-around locality for Unicode word "
-         "boundaries and CRLF anchors; regex-syntax translation and regex-automata trusted (differentially tested)",
+    text="Coq (over Spec/RegexSem.v, unbounded, induction on the HIR): line_locality_partial (a span inside the content "
+         "of an LF-terminated line is a match in the whole buffer iff it is one in the stripped line — proved for HIRs "
+         "whose look-around is LF line anchors or ASCII word assertions), path_selection_safe (whenever "
+         "Core::is_line_by_line_fast holds for the RegexMatcher model, passthru is off and no match in the buffer "
+         "contains the searcher's terminator byte), strip_invisible_on_content, without_terminator_fixed_crlf (lines.rs "
+         "after the D9 repair), candidate_sound_for_lines (C11-4); refuted with witnesses: slow_test_old_crlf_refuted "
+         "(D9, repaired), line_locality_crlf_refuted (D1, repaired), line_locality_unicode_refuted (new finding D17, "
+         "known). The event-level fast_eq_slow / slow_reports_iff over the Core model are the coordinator's "
+         "SearcherCore theorems (abstract matcher) and are NOT proved here: tested only. Tie to the code: end-to-end "
+         "oracle — (1-3 patterns, flags from -i -S -s -w -x -F --crlf --null-data -v, several -e, input bytes with "
+         "invalid UTF-8, bare CR, empty lines, missing final terminator) through real `rg -n --no-heading`, the library "
+         "searcher (slice, fragmented reader, passthru = slow path) and a reference: the documented meaning of each flag "
+         "applied through regex-syntax directly (independent of config.rs), evaluated per stripped line by the "
+         "extracted Coq semantics.",
+    note="partial: look-around locality for Unicode word boundaries (false in general: D17) and CRLF anchors is not "
+         "proved; the composition with the Core model (fast_eq_slow) is left to Model/SearcherCore.v's theorems with the "
+         "matcher contract as hypothesis; regex-syntax translation and regex-automata trusted (differentially tested)",
     technique="Coq proof over executable semantics + end-to-end differential oracle (rg, library, reference HIR)",
     design="§7 C01, A.3, §8 D1 D9")
 KNOWN_D17 = "UnicodeLookBehindAcrossLineStart"
